@@ -177,6 +177,17 @@ func genWire(r *Rand, g GenCfg) Plan {
 			t.Inv.Args = append(t.Inv.Args, KV{"blob", *blob.V})
 		}
 	}
+	// the routes arguments can take into an invocation are taken in turn, and every fourth run an
+	// invocation carries a top-level byte string, a nested one, a float, a link-free list of lists
+	routes := []string{"", "args", "builder", "include", "split", "overlap"}
+	for ti := range p.Tokens {
+		if inv := p.Tokens[ti].Inv; p.Tokens[ti].Kind == "inv" && inv != nil {
+			inv.ArgsVia = routes[int(g.Index/2+uint64(ti))%len(routes)]
+			if g.Index%4 == 3 {
+				inv.Args = append(inv.Args, KV{"bin0", vBytes(r.Bytes(r.Range(1, 40)))}, KV{"binl", vList(vBytes(r.Bytes(3)), vMap(KV{"b", vBytes(r.Bytes(5))}))}, KV{"fl", vFloat(2.5)}, KV{"ll", vList(vList(vInt(1)), vList())})
+			}
+		}
+	}
 	wide := -1
 	if g.Index%16 == 11 {
 		wide = r.Intn(2)
